@@ -10,6 +10,7 @@ import json, os, re, shutil, subprocess, sys
 ROOT, PREFIX = sys.argv[1], sys.argv[2]
 names = sys.argv[3:] or sorted(d for d in os.listdir(ROOT) if os.path.isdir(os.path.join(ROOT, d)))
 REPO, VERIF = "/repo", "/verif"
+RUN_DIR = os.environ.get("VERIF_RUN_DIR", VERIF)      # where ./vcheck is executed from (a snapshot, so that /verif can be edited meanwhile)
 ENV = dict(os.environ, PYTHONPATH="/repo/src")
 
 
@@ -45,7 +46,7 @@ for name in names:
     applied_diff = sh("git diff", REPO).stdout
     t = sh("/venv/bin/python -m pytest -q -p no:cacheprovider --timeout=900 -x 2>&1 | tail -1", REPO, ENV).stdout.strip()
     d1 = sh(f"timeout 300 /venv/bin/python {sd}/demo.py", "/tmp", ENV).returncode if os.path.exists(f"{sd}/demo.py") else None
-    chk = sh(f"./vcheck run {prop} --tier quick", VERIF, timeout=3600)
+    chk = sh(f"./vcheck run {prop} --tier quick", RUN_DIR, timeout=3600)
     sigs = re.findall(r"signature: (.*?)  \(x(\d+)\)", chk.stdout)
     sh("git checkout -- .", REPO)
     sh("find /repo -name '*.orig' -o -name '*.rej' | xargs -r rm -f")
